@@ -29,6 +29,7 @@ from hypergraph.runners._shared.types import (
     _generate_run_id,
 )
 from hypergraph.runners._shared.validation import (
+    _validate_on_internal_override,
     resolve_runtime_selected,
     validate_inputs,
     validate_map_compatible,
@@ -276,6 +277,8 @@ class AsyncRunnerTemplate(BaseRunner, ABC):
         validate_runner_compatibility(graph, self.capabilities)
         validate_node_types(graph, self.supported_node_types)
         validate_map_compatible(graph)
+        resolve_runtime_selected(select, graph)
+        _validate_on_internal_override(on_internal_override)
         _validate_on_missing(on_missing)
         _validate_error_handling(error_handling)
 
